@@ -65,8 +65,22 @@ def indx_cases(draw, max_entries=40, max_rowids=50, very_long=False):
         first[draw(st.integers(0, arity - 1))] = draw(value_exact(cc))
         if tuple(first) not in coords:
             coords[0] = tuple(first)
+    many = None
+    if very_long and draw(st.integers(0, 9)) == 0:
+        # MANY entries, at block-size counts (a fully populated 8 x 128 or 16 x 256 grid of codes x columns):
+        # built by construction, each with 0..2 row ids
+        many = draw(st.sampled_from([255, 256, 257, 1023, 1024, 1025, 2048, 4095, 4096, 4097, 8192]))
+        width = draw(st.sampled_from([64, 128, 256, 512]))
+        base = draw(st.sampled_from([0, 0, 250, 65530]))
+        coords = []
+        for i in range(many):
+            c = [base + i // width, i % width] + [i % 3] * (arity - 2) if arity >= 2 else [base + i]
+            coords.append(tuple(c[:arity]))
+        k = draw(st.integers(0, 2))
+        rowids = [[(7 * i + j) for j in range((i + k) % 3)] for i in range(many)]
     rl = rowid_lists(max_rowids)
-    rowids = draw(st.lists(rl, min_size=len(coords), max_size=len(coords)))
+    if many is None:
+        rowids = draw(st.lists(rl, min_size=len(coords), max_size=len(coords)))
     if coords and draw(st.integers(0, 5)) == 0:
         # one long entry (writers may treat long arrays differently from short ones)
         k = draw(st.integers(0, len(coords) - 1))
